@@ -16,6 +16,7 @@ DRIVER = "drv_win"
 DRIVER_ROOT = "Win"
 THEOREMS = [
     "C19.group_new_iff_unseen_or_expired",
+    "C19.new_group_announced",
     "C19.group_routes_to_key",
     "C19.groups_end_with_source",
     "C19.partition_exactly_one",
@@ -428,9 +429,9 @@ def gen_part(rng):
 
 
 def cases(rng, tier):
-    for _ in range(fw.tier_scale(tier, 2500, 25000)):
+    for _ in range(fw.tier_scale(tier, 3000, 30000)):
         yield gen_group(rng)
-    for _ in range(fw.tier_scale(tier, 900, 9000)):
+    for _ in range(fw.tier_scale(tier, 1000, 10000)):
         yield gen_part(rng)
 
 
@@ -507,9 +508,8 @@ def oracle_group(case, out):
         if sync and durs[g]["sync"][0] == "E":
             error_alls.append((durs[g]["sync"][1], c["t"], set(open_.values()) | {g}))
             return None
-        if c["v"][0] == "raise":
-            if not sync:
-                error_alls.append((c["v"][1], c["t"], set(open_.values()) | {g}))
+        if c["v"][0] == "raise":      # element_mapper raised: every group still open (a synchronously expired new group is not) fails
+            error_alls.append((c["v"][1], c["t"], set(open_.values())))
             return None
         if c["delivered"] == 0 and not sync:
             # (a group whose duration fires inside its own subscribe call has an empty lifetime: its creating
